@@ -353,6 +353,81 @@ func suiteC05(c *Ctx) []Suite {
 			}
 			return out
 		}},
+		{Name: "sml/literals-beyond-the-capacity-of-an-item", Gen: func(c *Ctx) []Case {
+			// a string literal of 16,777,216 characters (one more than an A item can hold), written
+			// as one quoted string or as a string and a character code, alone, inside a list, or in
+			// the second message of a text: an error and no message (judged on the real code: the
+			// model driver is not fed 16 MB lines)
+			var out []Case
+			long := strings.Repeat("k", 16777215)
+			for _, cse := range []struct{ what, text string }{
+				{"one quoted string", "S1F1 W H->E\n<A \"" + long + "k\">\n."},
+				{"string and character code", "S1F1 W H->E\n<A \"" + long + "\" 65>\n."},
+				{"inside lists", "S1F1 W H->E\n<L\n  <U1 1>\n  <L\n    <A \"" + long + "k\">\n  >\n>\n."},
+				{"second message of the text", "S1F1 W H->E First\n<U1 1>\n.\nS1F3 W H->E Second\n<A \"" + long + "k\">\n."},
+				{"two strings", "S1F1 W H->E\n<A \"" + long[:9000000] + "\" \"" + long[:7777216] + "\">\n."},
+			} {
+				res := parseSML(cse.text)
+				o := ""
+				switch {
+				case res.panicked:
+					o = "panic"
+				case len(res.errs) == 0 || len(res.msgs) != 0:
+					o = fmt.Sprintf("a string literal of 16,777,216 characters (%s): %d errors, %d messages", cse.what, len(res.errs), len(res.msgs))
+				}
+				out = append(out, Case{Detail: "string literal one character beyond the capacity of an A item, " + cse.what, Oracle: o, Nontrivial: true, Tags: []string{"literal-beyond-capacity"}})
+			}
+			// the longest literal there is is accepted
+			res := parseSML("S1F1 W H->E\n<A \"" + long + "\">\n.")
+			o := ""
+			if res.panicked || len(res.errs) != 0 || len(res.msgs) != 1 || res.msgs[0].String() == "" {
+				o = fmt.Sprintf("a string literal of 16,777,215 characters: %d errors, %d messages", len(res.errs), len(res.msgs))
+			}
+			out = append(out, Case{Detail: "string literal of exactly the capacity of an A item", Oracle: o, Nontrivial: true, Tags: []string{"literal-at-capacity"}})
+			return out
+		}},
+		{Name: "sml/results-kept-across-calls", Gen: func(c *Ctx) []Case {
+			// what Parse returned for one text is the caller's: parsing other texts afterwards
+			// changes neither the list of messages nor the values in them
+			var out []Case
+			for i := 0; i < c.N(60); i++ {
+				type kept struct {
+					text string
+					msgs []*ast.DataMessage
+					show string
+				}
+				var table []kept
+				show := func(ms []*ast.DataMessage) string {
+					var sb strings.Builder
+					for _, m := range ms {
+						sb.WriteString(m.String() + "|" + hx(completedBytes(m)) + "\n")
+					}
+					return sb.String()
+				}
+				res := ""
+				for k := 0; k < 5 && res == ""; k++ {
+					var text string
+					for j := 0; j <= c.R.Intn(3); j++ {
+						msg, p := buildMsg(genSMLMsg(c.R, smlTemplate(c.R, 0.1, false)))
+						if !p {
+							text += msg.String() + "\n"
+						}
+					}
+					r := parseSML(text)
+					if r.panicked || len(r.errs) > 0 {
+						continue
+					}
+					table = append(table, kept{text, r.msgs, show(r.msgs)})
+					for q, kp := range table {
+						if now := show(kp.msgs); now != kp.show {
+							res = fmt.Sprintf("the messages returned for text %d changed after text %d was parsed: %s", q, k, firstDiff("x="+hxs(now), "x="+hxs(kp.show)))
+						}
+					}
+				}
+				out = append(out, Case{Detail: fmt.Sprintf("%d texts parsed one after the other, every result kept", len(table)), Oracle: res, Nontrivial: true, Tags: []string{"results-kept"}})
+			}
+			return out
+		}},
 	}
 }
 
@@ -618,6 +693,30 @@ func suiteC08(c *Ctx) []Suite {
 					stray := []STok{{"t", 0, false}, {"T", 0, true}, {"...", 0, false}, {`"a b"`, 0, false}, {"[1]", 0, false}, {"x9", 0, false}, {"5", 0, false}, {"f", 0, false}, {"W", 0, false}, {"S1F1", 0, false}}[c.R.Intn(10)]
 					toks = append(append(append([]STok{}, toks[:len(toks)-1]...), stray), toks[len(toks)-1])
 				}
+				dupVar := false
+				if i%6 == 4 && len(toks) > 4 && toks[len(toks)-1].Text == "." && toks[len(toks)-2].Text == ">" {
+					// an invalid message that uses one variable name twice (in a list, in an item of
+					// the list, or both): the diagnostic names the variable and nothing of the layout
+					root := -1
+					for k, t := range toks {
+						if t.Text == "<" {
+							root = k
+							break
+						}
+					}
+					if root >= 0 && root+1 < len(toks) && toks[root+1].Text == "L" {
+						nm := []string{"again", "dupv", "MDLN", "x9"}[c.R.Intn(4)]
+						ins := [][]STok{
+							{{nm, 0, false}, {nm, 0, false}},
+							{{"<", glueNext, false}, {"U1", 0, true}, {nm, 0, false}, {">", gluePrev, false}, {nm, 0, false}},
+							{{nm, 0, false}, {"<", glueNext, false}, {"BOOLEAN", 0, true}, {"T", 0, true}, {nm, 0, false}, {">", gluePrev, false}},
+							{{"<", glueNext, false}, {"A", 0, true}, {nm, 0, false}, {">", gluePrev, false}, {"<", glueNext, false}, {"I2", 0, true}, {"7", 0, false}, {nm, 0, false}, {">", gluePrev, false}},
+						}[c.R.Intn(4)]
+						at := len(toks) - 2
+						toks = append(append(append([]STok{}, toks[:at]...), ins...), toks[at:]...)
+						dupVar = true
+					}
+				}
 				if i%5 == 0 { // several messages in one text
 					toks = append(toks, msgTokens(c.R, genSMLMsg(c.R, smlTemplate(c.R, 0.2, false)), false)...)
 				}
@@ -627,7 +726,7 @@ func suiteC08(c *Ctx) []Suite {
 				lay2 := randomLayout(c.R)
 				lay2.EOLAfter = eolAfter
 				lay2.EndComment = i%4 == 2 && i%5 != 0
-				if i%3 == 0 {
+				if i%3 == 0 || dupVar {
 					// in a mutated sequence tokens stand where gluing or a case change would alter
 					// the token sequence itself: vary only the separators and comments
 					lay2.Compact, lay2.VaryCase = false, false
@@ -636,6 +735,9 @@ func suiteC08(c *Ctx) []Suite {
 				t2, p2 := lay2.render(toks)
 				r1, r2 := parseSML(t1), parseSML(t2)
 				cs := Case{Op: smlOp(t2), Nontrivial: true, Tags: []string{fmt.Sprintf("valid:%v", len(r1.errs) == 0)}}
+				if dupVar {
+					cs.Tags = append(cs.Tags, "variable-used-twice")
+				}
 				switch {
 				case r1.panicked || r2.panicked:
 					cs.Oracle = "panic"
@@ -795,11 +897,36 @@ func suiteC15(c *Ctx) []Suite {
 								} else {
 									body = strings.Repeat(" "+t.elem, n)
 								}
+								variant := ""
+								switch {
+								case t.ty == "L" && n >= 2 && c.R.Intn(3) == 0:
+									// an ellipsis (and a list variable) are children like any other
+									variant = "ellipsis"
+									body = strings.Repeat(" "+t.elem, n-1) + " ..."
+									if n >= 3 && c.R.Intn(2) == 0 {
+										body = strings.Repeat(" "+t.elem, n-2) + " v ..."
+									}
+									if n >= 3 && c.R.Intn(3) == 0 {
+										body = strings.Repeat(" "+t.elem, n-2) + " ... " + t.elem
+									}
+								case (t.ty[0] == 'I' || t.ty[0] == 'F') && n >= 2 && c.R.Intn(4) == 0:
+									// elements that need no white space between them: the next one starts with
+									// a sign or a dot
+									variant = "glued"
+									next := []string{"-1", "+1", "-0x1f", "+0b1"}
+									if t.ty[0] == 'F' {
+										next = []string{"-1.5", ".5", "+1e2", "-.5e-1", ".25"}
+									}
+									body = " " + t.elem
+									for k := 1; k < n; k++ {
+										body += next[c.R.Intn(len(next))]
+									}
+								}
 								// one time in six an element the type cannot hold stands among the others: it
 								// is reported where it stands and still counts as an element
 								badElem := ""
 								if lit, ok := map[string]string{"F4": "1e99", "F8": "1e999", "U1": "256", "U2": "65536", "U4": "4294967296", "U8": "18446744073709551616",
-									"I1": "128", "I2": "-32769", "I4": "2147483648", "I8": "9223372036854775808", "B": "256"}[t.ty]; ok && n > 0 && c.R.Intn(6) == 0 {
+									"I1": "128", "I2": "-32769", "I4": "2147483648", "I8": "9223372036854775808", "B": "256"}[t.ty]; ok && n > 0 && variant == "" && c.R.Intn(6) == 0 {
 									badElem = lit
 									k := c.R.Intn(n)
 									body = strings.Repeat(" "+t.elem, k) + " " + lit + strings.Repeat(" "+t.elem, n-1-k)
@@ -807,6 +934,9 @@ func suiteC15(c *Ctx) []Suite {
 								text := fmt.Sprintf("S1F1 H->E\n<L\n  <%s%s%s>\n>\n.", t.ty, decl, body)
 								res := parseSML(text)
 								cs := Case{Op: smlOp(text), Decisive: true, Nontrivial: true, Tags: []string{fmt.Sprintf("form:%d ok:%v", form, okWant)}}.fields("n err warn")
+								if variant != "" {
+									cs.Tags = append(cs.Tags, "elements:"+variant)
+								}
 								sizeErr := 0
 								for _, e := range res.errs {
 									if strings.Contains(e, "data item size overflow") {
@@ -1321,8 +1451,10 @@ func suiteC19(c *Ctx) []Suite {
 					// an earlier text may end with whatever the parser accepts at the end of a text
 					// (an end-of-file mark, an opened block comment, a stray control byte): if the
 					// text is accepted with it, what follows it is still read
-					if j < k-1 && c.R.Intn(6) == 0 {
-						cand := t + []string{"\n/* end of the first file\n", "\x1a", "\x1a\n", "\n\x04", "\n#eof\n", "\n;\n", "\n\x00", "\n---\n", "\n*/\n", "\x0c"}[c.R.Intn(10)]
+					if j < k-1 && c.R.Intn(4) == 0 {
+						cand := t + []string{"\n/* end of the first file\n", "\x1a", "\x1a\n", "\n\x04", "\n#eof\n", "\n;\n", "\n\x00", "\n---\n", "\n*/\n", "\x0c",
+						// a message end character that ends nothing (an empty record)
+						"\n.", " .", "\n.\n.\n", ".", "\n// end\n.\n"}[c.R.Intn(15)]
 						if rc := parseSML(cand); !rc.panicked && len(rc.errs) == 0 {
 							t = cand
 						}
